@@ -1,7 +1,7 @@
 from . import streams_cavity, streams_collapse, cli, streams_mixed
 
 ID = 'C01'
-PROPS_MODULE = ['Refine.Props.C01', 'Refine.Props.C13Collapse', 'Refine.Props.C02Mixed']
+PROPS_MODULE = ['Refine.Props.C01', 'Refine.Props.C13Collapse', 'Refine.Props.C02Mixed', 'Refine.Props.C01Cavity2']
 STREAMS = [streams_cavity.OPS, streams_cavity.BAD, streams_cavity.VALID,
            cli.ADAPT, streams_cavity.ADAPT_PASSES, cli.ADAPT_MPI, streams_collapse.STARS, streams_collapse.RUN,
            streams_mixed.FN, streams_mixed.RUN, streams_mixed.ADAPT_MIXED, streams_mixed.ADAPT_MIXED_MPI]
